@@ -29,38 +29,61 @@ pub(crate) fn c10_stub_format(_a: std::fmt::Arguments<'_>) -> String {
 /// every header field / slot read back from the page is non-constant for symex, so `insert` always explores
 /// `defragment` (BinaryHeap of symbolic length, memcpy of symbolic size) and `copy_within` becomes a memmove of
 /// symbolic length: a single `insert` into an empty page then runs out of memory (> 20 GB).
-#[repr(C, align(4096))]
-pub(crate) struct C10Buf {
-    hdr: BtreePageHeader,
-    // rows of 64 bytes: CBMC keeps arrays of <= 64 elements field-sensitive (one SSA symbol per byte), so slot
-    // offsets written by one operation are still constants when the next operation reads them
-    rows: [[u8; 64]; C10_CAP / 64],
-    tail: [u8; C10_CAP % 64],
+const C10_ZH: BtreePageHeader = BtreePageHeader {
+    page_number: 0,
+    right_child: None,
+    next_sibling: None,
+    previous_sibling: None,
+    free_space_ptr: 0,
+    page_size: 0,
+    free_space: 0,
+    padding: 0,
+    num_slots: 0,
+};
+pub(crate) trait C10Mem {
+    fn zeroed() -> Self;
 }
-impl C10Buf {
+#[repr(C, align(4096))]
+pub(crate) struct C10BufA {
+    hdr: BtreePageHeader,
+    slots: [u16; 8],
+    mid: [u8; C10_CAP - 16 - 640],
+    top: [[u32; 40]; 4],
+}
+impl C10Mem for C10BufA {
     fn zeroed() -> Self {
-        C10Buf {
-            hdr: BtreePageHeader {
-                page_number: 0,
-                right_child: None,
-                next_sibling: None,
-                previous_sibling: None,
-                free_space_ptr: 0,
-                page_size: 0,
-                free_space: 0,
-                padding: 0,
-                num_slots: 0,
-            },
-            rows: [[0u8; 64]; C10_CAP / 64],
-            tail: [0u8; C10_CAP % 64],
-        }
+        C10BufA { hdr: C10_ZH, slots: [0; 8], mid: [0; C10_CAP - 16 - 640], top: [[0; 40]; 4] }
+    }
+}
+#[repr(C, align(4096))]
+pub(crate) struct C10BufB {
+    hdr: BtreePageHeader,
+    slots: [u16; 8],
+    mid: [u8; C10_CAP - 16 - 640],
+    top: [[u8; 64]; 10],
+}
+impl C10Mem for C10BufB {
+    fn zeroed() -> Self {
+        C10BufB { hdr: C10_ZH, slots: [0; 8], mid: [0; C10_CAP - 16 - 640], top: [[0; 64]; 10] }
+    }
+}
+#[repr(C, align(4096))]
+pub(crate) struct C10BufC {
+    hdr: BtreePageHeader,
+    w: [[u32; 64]; 15],
+    t: [u32; 44],
+}
+impl C10Mem for C10BufC {
+    fn zeroed() -> Self {
+        C10BufC { hdr: C10_ZH, w: [[0; 64]; 15], t: [0; 44] }
     }
 }
 /// `<MemBlock<BtreePageHeader> as Allocatable>::alloc(id, 4096)` step by step (storage/core/buffer.rs:334-348 and
 /// MemBlock::new :81-84), the only difference being where the zeroed memory comes from (`buf` instead of
 /// `Global.allocate_zeroed`); `c10_alloc_equiv` checks that both constructions give the same page.
 /// The returned page must be `mem::forget`-ed (its Drop would deallocate `buf`).
-fn c10_page(buf: &mut C10Buf, id: PageId) -> BtreePage {
+fn c10_page<B: C10Mem>(buf: &mut B, id: PageId) -> BtreePage {
+    assert!(mem::size_of::<B>() == C10_PS && mem::align_of::<B>() == C10_PS, "backing_memory_is_one_aligned_page");
     let size = C10_PS;
     assert!((BtreePage::MIN_SIZE..=BtreePage::MAX_SIZE).contains(&size), "alloc_accepts_4096");
     let raw = NonNull::slice_from_raw_parts(NonNull::from(buf).cast::<u8>(), size);
@@ -411,13 +434,16 @@ macro_rules! c10_seq {
 }
 macro_rules! c10_h {
     ($name:ident, $unwind:expr; $($ops:tt)*) => {
+        c10_h!($name, C10BufA, $unwind; $($ops)*);
+    };
+    ($name:ident, $buf:ty, $unwind:expr; $($ops:tt)*) => {
         #[kani::proof]
         #[kani::unwind($unwind)]
         #[kani::stub(std::fmt::format, c10_stub_format)]
         fn $name() {
             let sel: [u8; 6] = kani::any();
             let v: [C10Cell; 6] = [c10_val(), c10_val(), c10_val(), c10_val(), c10_val(), c10_val()];
-            let mut buf = C10Buf::zeroed();
+            let mut buf = <$buf as C10Mem>::zeroed();
             let mut p = c10_page(&mut buf, kani::any());
             let mut m = C10Model::new();
             let mut l = C10Laws::new();
@@ -455,3 +481,8 @@ c10_h!(c10_ops_rem_defrag, 6; push(120) push(24) push(8) rem defrag);
 c10_h!(c10_ops_ins_needs_defrag, 6; push(2000) push(1000) rem ins(1000));
 // @obl harness=c10_ops_err_full id=C10.page_ops[push2000,push1000,ins1000=Err] tier=quick funcs="BtreeOps::insert,BtreeOps::defragment" bounds="page 4096; cells of 2000 and 1000 bytes, a third of 1000 bytes does not fit at any index: Err(StorageFull) after an internal defragment; page logically unchanged; then a 900-byte cell fits" stubs="std::fmt::format"
 c10_h!(c10_ops_err_full, 6; push(2000) push(1000) ins(1000) ins(900));
+
+c10_h!(c10_probe_a2, C10BufA, 6; ins(24) ins(13));
+c10_h!(c10_probe_b2, C10BufB, 6; ins(24) ins(13));
+c10_h!(c10_probe_c2, C10BufC, 6; ins(24) ins(13));
+c10_h!(c10_probe_a3, C10BufA, 6; ins(8) ins(24) ins(120));
